@@ -148,12 +148,12 @@ PROFILES = {
         'gen': gen_c20.gen_c20,
         'gen_indexed': gen_c20.gen_c20_indexed,
         'fixed_runs': lambda tier: gen_c20.FIXED_SIZE,
-        'seed_shift': lambda tier: len(gen_c20.CALLABLE_WITNESSES),
+        'seed_shift': lambda tier: gen_c20.FIXED_SIZE - gen_c20.LEGACY_FIXED_SIZE,
         'props': ['C20'],
         'coverage': c20_coverage,
         'warnings': c20_warnings,
         'level': 'exploration',
-        'quick_runs': 8005,
+        'quick_runs': 8083,
         'thorough_runs': 200000,
     },
     'C13': {
@@ -177,7 +177,7 @@ PROFILES = {
         'coverage': c08_coverage,
         'warnings': c08_warnings,
         'level': 'exploration',
-        'quick_runs': 4354,
-        'thorough_runs': 153314,
+        'quick_runs': 4376,
+        'thorough_runs': 153336,
     },
 }
